@@ -80,7 +80,9 @@ RI(k) == <<k, 1>>
 Round(a) == LET q == a[1] \div a[2]  r == a[1] - q * a[2] IN
             IF 2 * r < a[2] THEN q ELSE IF 2 * r > a[2] THEN q + 1 ELSE IF q % 2 = 0 THEN q ELSE q + 1
 \* |k - a| <= 1/2: k is a correct rounding of a (either neighbour on a tie: float arithmetic may fall on either side)
-IsRounding(k, a) == 2 * Abs(k * a[2] - a[1]) <= a[2]
+\* (written without multiplying k by the denominator: TLC integers are 32-bit)
+IsRounding(k, a) == LET q == a[1] \div a[2]  r == a[1] - q * a[2] IN
+                    (k = q /\ 2 * r <= a[2]) \/ (k = q + 1 /\ 2 * r >= a[2])
 
 (***************************************************************************)
 (* calculate_scaling and scale                                             *)
